@@ -4,7 +4,7 @@
    build profiles -- to exactly the hand-written Machine functions that the theorems are about.
    Callee methods are interpreted by their Machine twins (each has its own lemma): the proof is modular. *)
 From Coq Require Import ZArith List String Bool Lia.
-From MV Require Import Ast Eval Scalar Machine Equiv Prims EquivTac.
+From MV Require Import Ast Eval Scalar Machine EquivDefs Prims EquivTac.
 From MV.Gen Require Import AstGen.
 Import ListNotations.
 Open Scope string_scope.
@@ -26,10 +26,6 @@ Section EquivCap.
     unfold runm. evm. cbv [is_default capacity vec_handle bind ret hdr_block get_block ub lift_m]. sym.
   Qed.
 
-  Lemma alignment_equiv v s : runm lib__MiniVec__alignment_ast [VObj v] s = lift_m (alignment cfg v) VInt s.
-  Proof.
-    unfold runm. evm. cbv [is_default alignment vec_handle bind ret hdr_block get_block ub lift_m]. sym.
-  Qed.
 
   Lemma reserve_exact_equiv v n s :
     runm lib__MiniVec__reserve_exact_ast [VObj v; VInt n] s = lift_m (reserve_exact cfg v n) vunit s.
